@@ -3,6 +3,7 @@ package c13
 
 import (
 	"encoding/json"
+	"errors"
 	"fmt"
 	"os"
 	"sync"
@@ -14,7 +15,7 @@ import (
 	"verif/harness/ev"
 )
 
-const rule = "cases = histories of Sample(level) calls with clock readings (non-monotonic allowed, >= epoch) supplied through TimestampFunc, over sampler compositions (Basic N, Burst{Burst,Period,Next}, LevelSampler, nested), bare and behind a Logger with level gates and DisableSampling toggles; bounded-exhaustive over short histories on a 7-tick clock alphabet, random for long histories and large parameters; concurrent goroutines on one BasicSampler. oracle = reference sampler model. non-trivial = history crossing >=1 window boundary or reaching a NextSampler; distinct = FNV-64 of (sampler spec, history), enumerations by construction"
+const rule = "cases = histories of Sample(level) calls with clock readings (non-monotonic allowed, >= epoch) supplied through TimestampFunc, over sampler compositions (Basic N, Burst{Burst,Period,Next}, LevelSampler, nested), bare and behind a Logger with level gates and DisableSampling toggles, events entering through WithLevel, the level methods, Log, Logger.Write, Print/Printf/Println and Err; bounded-exhaustive over short histories on a 7-tick clock alphabet, random for long histories and large parameters; concurrent goroutines on one BasicSampler. oracle = reference sampler model. non-trivial = history crossing >=1 window boundary or reaching a NextSampler; distinct = FNV-64 of (sampler spec, history), enumerations by construction"
 
 var rec = ev.New("C13", rule)
 
@@ -66,12 +67,12 @@ func build(s *Spec) zerolog.Sampler {
 }
 
 type model struct {
-	s       *Spec
-	count   uint64 // basic: calls so far ; burst: events in current window
-	windowE int64  // burst: end of the current window
-	opened  bool
-	next    *model
-	slots   []*model
+	s                    *Spec
+	count                uint64 // basic: calls so far ; burst: events in current window
+	windowE              int64  // burst: end of the current window
+	opened               bool
+	next                 *model
+	slots                []*model
 	reachedNext, crossed bool
 }
 
@@ -340,6 +341,51 @@ type LEvt struct {
 	Now     int64 `json:"now"`
 	Global  int   `json:"global"`
 	Disable bool  `json:"disable_sampling"`
+	// Via: entry point. "" WithLevel(lvl) | method (Trace..Error by lvl) | log (Log(): no level) |
+	// write (Logger.Write, the io.Writer entry: no level) | print | printf | println (debug) | err (Err(e): error level)
+	Via string `json:"via,omitempty"`
+}
+
+// emit sends one event through the chosen entry point and returns its effective level.
+func emit(l *zerolog.Logger, e LEvt) int {
+	switch e.Via {
+	case "method":
+		switch e.Lvl {
+		case -1:
+			l.Trace().Msg("m")
+		case 0:
+			l.Debug().Msg("m")
+		case 1:
+			l.Info().Msg("m")
+		case 2:
+			l.Warn().Msg("m")
+		case 3:
+			l.Error().Msg("m")
+		default:
+			l.WithLevel(zerolog.Level(e.Lvl)).Msg("m")
+		}
+		return e.Lvl
+	case "log":
+		l.Log().Msg("m")
+		return int(zerolog.NoLevel)
+	case "write":
+		l.Write([]byte("a line from the standard library logger\n"))
+		return int(zerolog.NoLevel)
+	case "print":
+		l.Print("m")
+		return int(zerolog.DebugLevel)
+	case "printf":
+		l.Printf("%s", "m")
+		return int(zerolog.DebugLevel)
+	case "println":
+		l.Println("m")
+		return int(zerolog.DebugLevel)
+	case "err":
+		l.Err(errors.New("boom")).Msg("m")
+		return int(zerolog.ErrorLevel)
+	}
+	l.WithLevel(zerolog.Level(e.Lvl)).Msg("m")
+	return e.Lvl
 }
 
 type cw struct{ n int }
@@ -357,10 +403,10 @@ func runLogger(c *LoggerCase) (string, bool) {
 		zerolog.SetGlobalLevel(zerolog.Level(e.Global))
 		zerolog.DisableSampling(e.Disable)
 		w.n = 0
-		l.WithLevel(zerolog.Level(e.Lvl)).Msg("m")
-		want := e.Lvl >= c.LoggerLevel && e.Lvl >= e.Global && e.Lvl != 7
+		lvl := emit(&l, e)
+		want := lvl >= c.LoggerLevel && lvl >= e.Global && lvl != 7
 		if want && !e.Disable {
-			want = m.sample(e.Lvl, e.Now)
+			want = m.sample(lvl, e.Now)
 		}
 		if (w.n == 1) != want {
 			return fmt.Sprintf("event %d (%+v): written=%v, model %v (events rejected by a level gate or under DisableSampling(true) must not consume sampler budget)", i, e, w.n == 1, want), m.nontrivial()
@@ -374,7 +420,8 @@ func TestRapidThroughLogger(t *testing.T) {
 		c := &LoggerCase{Spec: genSpec(rt, 2, "spec"), LoggerLevel: rapid.SampledFrom([]int{-1, 0, 1, 2}).Draw(rt, "ll")}
 		calls := genCalls(rt, 60)
 		for _, cl := range calls {
-			c.Events = append(c.Events, LEvt{Lvl: cl.Lvl, Now: cl.Now, Global: rapid.SampledFrom([]int{-1, -1, -1, 0, 1, 3}).Draw(rt, "gl"), Disable: rapid.IntRange(0, 5).Draw(rt, "dis") == 0})
+			c.Events = append(c.Events, LEvt{Lvl: cl.Lvl, Now: cl.Now, Global: rapid.SampledFrom([]int{-1, -1, -1, 0, 1, 3}).Draw(rt, "gl"), Disable: rapid.IntRange(0, 5).Draw(rt, "dis") == 0,
+				Via: rapid.SampledFrom([]string{"", "", "method", "method", "log", "write", "print", "printf", "println", "err"}).Draw(rt, "via")})
 		}
 		msg, nt := runLogger(c)
 		b, _ := json.Marshal(c)
